@@ -24,6 +24,7 @@ import OpenFGAVerif.Proofs.ModelStoreHist
 import OpenFGAVerif.Proofs.ModelValidate
 import OpenFGAVerif.Gen.ModelValidation
 import OpenFGAVerif.Props.ResolverKeys
+import OpenFGAVerif.Props.ReqValidate
 
 namespace OpenFGAVerif.C17
 open OpenFGAVerif.Vocab OpenFGAVerif.Model.ModelStore OpenFGAVerif.Model.ModelValidate
